@@ -39,8 +39,8 @@ Held == {PackedLock} \cup Names
 \* placements of one branch: absent / loose / packed / packed but shadowed by a newer loose value / both equal
 BranchPl == { <<Absent, Absent>>, <<Direct("v1"), Absent>>, <<Absent, Direct("v1")>>,
               <<Direct("v2"), Direct("v1")>>, <<Direct("v1"), Direct("v1")>> }
-BranchPlSmall == { <<Absent, Absent>>, <<Direct("v1"), Absent>>, <<Direct("v2"), Direct("v1")>> }
-HeadPl == { <<Sym(nA), Absent>>, <<Direct("v1"), Absent>>, <<Absent, Absent>> }
+BranchPlSmall == { <<Absent, Absent>>, <<Direct("v2"), Direct("v1")>> }
+HeadPl == { <<Sym(nA), Absent>>, <<Direct("v1"), Absent>> }
 
 PackCalls == {Call("PackRefs", NoName, AnyOld, a, NoName) : a \in {"all", "tags"}}
 RCalls == Calls \cup PackCalls
